@@ -3,8 +3,9 @@ from ..sqlgen import *  # noqa
 from ..qcheck import mk_case, run_cases
 from ..common import dec_val
 
+FACTS = True
 MODULE = "Genql.Properties.C04"
-LEAN_TARGETS = [MODULE, "Genql.Properties.C04Model", "Genql.Proofs.KeyText", "Genql.Properties.C04On"]
+LEAN_TARGETS = [MODULE, "Genql.Properties.C04Model", "Genql.Proofs.KeyText", "Genql.Properties.C04On", "Genql.Obligations.C04"]
 THEOREMS = ["Genql.C04." + t for t in [
     "catalogue_eq_groups", "catalog_flatten_perm", "catalog_member_key", "catalog_lookup_filter",
     "hash_inner_perm_textbook", "hash_left_perm_textbook", "flatMap_comm_perm", "nested_inner_perm_textbook",
@@ -14,7 +15,7 @@ THEOREMS = ["Genql.C04." + t for t in [
     "nestedRun_pure", "nestedPure_inner_eq", "nestedPure_left_eq", "toCatalog_entries", "hash_join_model_textbook",
     "nested_join_model_textbook"]] + ["Genql.KeyText." + t for t in [
         "tok_append_inj", "enc_injective", "encKey_injective", "rowKey_enc", "rowKey_eq_iff"]] + \
-    ["Genql.C04." + t for t in ["hard_eq_flat", "on_sound", "on_and_sound"]]
+    ["Genql.C04." + t for t in ["hard_eq_flat", "on_sound", "on_and_sound"]] + ["Genql.Obligations.C04.join_strategy_lines"]
 TRUSTED = ["Go map iteration order is an arbitrary permutation (results compared as multisets)",
            "SHA-256 of the key text is collision free", "sqlparser JoinType predicates (table copied in pylib/sqlgen.py)",
            "goroutine scheduling of the PARALLEL variants only permutes chunk order (mutex-protected append)"]
